@@ -4,7 +4,7 @@
 set -e
 cd "$(dirname "$0")"
 export GOFLAGS=-mod=mod GOPROXY=off GOSUMDB=off GOTOOLCHAIN=local
-mkdir -p bin evidence replays
+mkdir -p bin evidence replays coq/Gen
 cp /repo/go.sum harness/go.sum
 (cd harness && go build -tags verif -o ../bin/verifrun ./cmd/verifrun)
 ./bin/verifrun consts > coq/Gen/Consts.v
